@@ -28,7 +28,7 @@ func c07Root(t *rapid.T) string {
 		segs = append(segs, rapid.SampledFrom([]string{"..", "..", "x/../..", "./.."}).Draw(t, fmt.Sprintf("seg%d", i)))
 	}
 	for i := 0; i < rapid.IntRange(0, 2).Draw(t, "down"); i++ {
-		segs = append(segs, rapid.SampledFrom([]string{"l1", "l2", "victim", "out", "a b", "é", "."}).Draw(t, fmt.Sprintf("d%d", i)))
+		segs = append(segs, rapid.SampledFrom([]string{"l1", "l2", "victim", "out", "a b", "é", ".", "out-private", "outx", "out.old"}).Draw(t, fmt.Sprintf("d%d", i)))
 	}
 	s := strings.Join(segs, "/")
 	switch rapid.IntRange(0, 11).Draw(t, "form") {
@@ -86,7 +86,9 @@ func TestVerifC07AppRoot(t *testing.T) {
 			os.WriteFile(filepath.Join(md, "0123456789abcdef.sbxmap"), []byte("sidecar"), 0644)
 		}
 		for _, d := range []string{sbx, filepath.Join(sbx, "l1"), filepath.Join(sbx, "l1", "l2"), filepath.Join(sbx, "l1", "l2", "l3"),
-			filepath.Join(sbx, "l1", "l2", "l3", "victim"), filepath.Join(sbx, "l1", "l2", "victim"), filepath.Join(sbx, "l1", "victim"), out, filepath.Join(out, "l1")} {
+			filepath.Join(sbx, "l1", "l2", "l3", "victim"), filepath.Join(sbx, "l1", "l2", "victim"), filepath.Join(sbx, "l1", "victim"), out, filepath.Join(out, "l1"),
+			// siblings whose names merely begin like the output directory's
+			filepath.Join(sbx, "l1", "l2", "l3", "out-private"), filepath.Join(sbx, "l1", "l2", "l3", "outx"), filepath.Join(sbx, "l1", "l2", "l3", "out.old")} {
 			os.MkdirAll(d, 0755)
 			plant(d)
 		}
